@@ -90,6 +90,8 @@ def same_atoms_diff(repo, fixed, fix_psi, seq, zero_first=False, zero_at=None, c
 
 def check(ctx):
     repo = ctx.repo
+    ctx.rule("R10.9", "the refresh is never skipped because the new link exponents compare equal to the remembered ones, unless the remembered "
+                      "value is a private copy (a view of the caller's array compares equal to itself after an in-place change)", 1)
     ctx.rule("R10.8", "the remembered potential self.current_A_applied is written by __init__ and update() only (where the refresh guard lives)", 2)
     ctx.rule("R10.1", "after any sequence of set_link_exponents calls, psi_gradient/psi_laplacian equal a fresh build "
                       "for the last potential (merged COO blocks, masks included; no store outside the built pattern)", 12)
@@ -151,6 +153,7 @@ def check(ctx):
                    consequence="a link-variable entry is never refreshed (stale) or a link-free entry is overwritten")
     check_triggers(ctx)
     link_callers(ctx)
+    no_skipped_refresh(ctx)
     baseline_writers(ctx)
     ctx.assume("scipy's sparse __setitem__ overwrites existing entries (R10.1 shows every refreshed position exists in the pattern)")
     ctx.decline("cupy branch of _spmatrix_set_many (GPU only); numerical equality in floating point")
@@ -336,3 +339,51 @@ def baseline_writers(ctx):
                            "again on the same solver the link variables of the previous run stay in use until A(t) first departs from A(0)")
     if set(writers) & {"__init__", "update"} != {"__init__", "update"}:
         raise AnalysisError(f"expected __init__ and update to write self.current_A_applied, found {sorted(writers)}")
+
+
+def no_skipped_refresh(ctx, rule="R10.9"):
+    """In MeshOperators.set_link_exponents: an exit (or a skipped refresh) that depends on a comparison with self.link_exponents is only
+    sound when self.link_exponents never shares storage with the caller's array."""
+    from ..alias import VIEW_FUNCS
+    from ..dataflow import conditions_at
+    repo = ctx.repo
+    f = repo.func(OPS, "MeshOperators.set_link_exponents")
+    fn = f.node
+    pm = parent_map(fn)
+    params = [a.arg for a in fn.args.args[1:]]
+    # how the remembered value is stored
+    stores = [n for n in own_nodes(fn) if isinstance(n, ast.Assign) and any(norm(t) == "self.link_exponents" for t in n.targets)]
+    if not stores:
+        raise AnalysisError("set_link_exponents no longer remembers self.link_exponents")
+
+    def shares(e):
+        """may the stored value be (a view of) the caller's array?"""
+        if isinstance(e, ast.Name):
+            return e.id in params
+        if isinstance(e, ast.Call):
+            nm = norm(e.func).split(".")[-1]
+            if nm in VIEW_FUNCS:
+                return any(shares(a) for a in e.args) or (isinstance(e.func, ast.Attribute) and shares(e.func.value))
+            return False                # array(), copy(), arithmetic ... give fresh storage
+        if isinstance(e, (ast.Subscript, ast.Attribute)):
+            return shares(e.value)
+        if isinstance(e, ast.IfExp):
+            return shares(e.body) or shares(e.orelse)
+        return False
+    view = any(shares(st.value) for st in stores)
+    # exits and refresh statements that depend on a comparison with the remembered value
+    dependent = []
+    for n in own_nodes(fn):
+        if isinstance(n, (ast.Return, ast.Assign, ast.Expr, ast.AugAssign)):
+            for c in conditions_at(fn, n, pm):
+                if "self.link_exponents" in norm(c) and not norm(c).replace("not ", "").strip("()") in ("self.link_exponents is None", "self.link_exponents is not None"):
+                    dependent.append(f"L{n.lineno}: `{norm(n)[:50]}` under `{norm(c)[:80]}`")
+                    break
+    ok = not (dependent and view)
+    ctx.ob(rule, "no refresh of the link variables is skipped on a comparison with a remembered view of the caller's array", ok,
+           detail={"remembered_as": [norm(st.value) for st in stores], "may_share_storage": view, "dependent": dependent[:4]}, where=f.fq,
+           construct="refresh skipped on comparison with self.link_exponents", loc=loc(f, fn),
+           message=f"set_link_exponents skips work when the new exponents equal self.link_exponents ({dependent[:1]}), but self.link_exponents is stored as "
+                   f"`{norm(stores[0].value)}`, which can be the caller's own array: after an in-place change of that array the comparison is trivially true",
+           consequence="a caller that gauge-transforms (or otherwise updates) its vector potential in place and calls set_link_exponents again keeps the old "
+                       "link variables: the operators are not those of the potential handed in")
